@@ -133,7 +133,7 @@ prop('C09',
 
 
 prop('C07',
-     [RO.r07_a, RO.r07_b, CV.r07_d, RO.r07_e, B.r20_c, RO.r07_f],
+     [RO.r07_a, RO.r07_b, CV.r07_d, RO.r07_e, B.r20_c, RO.r07_f, CV.r08_b],
      'Role inference by data flow from the public entry point (which parameters carry the tolerance option), a '
      'threading rule on every resolved call edge, must-flow along the recursion through environments, brace and '
      'bracket arguments, and a non-interference rule: every condition that mentions the option is evaluated for '
